@@ -7,6 +7,16 @@
 // observe (Download and Stat of every name, List of every prefix in every
 // listing mode, continuation tokens followed to the end) is compared with the
 // model.
+//
+// Long-lived client dimension: every client is built by the package's real
+// constructor where one exists that can run in-process (s3backend.NewClient +
+// WithS3), sync.Pool in the backend packages is the deterministic always-reuse
+// pool of ./dsync, the state key carries the history variable "longest object
+// this instance has transferred into a non-WriterAt destination", and on
+// configurations with the in-memory S3 the alphabet has transfer faults
+// (Download cut after j chunks), so that state a client keeps between calls
+// (recycled buffers, caches) is exercised by longer-then-shorter and
+// failed-then-successful downloads on ONE instance.
 package main
 
 import (
@@ -21,10 +31,12 @@ import (
 	"sort"
 	"strconv"
 	"strings"
+	"sync"
 	"sync/atomic"
 	"time"
 
 	"github.com/uber-go/tally"
+	"github.com/uber/kraken/core"
 	"github.com/uber/kraken/lib/backend"
 	"github.com/uber/kraken/lib/backend/backenderrors"
 	"github.com/uber/kraken/lib/backend/namepath"
@@ -35,6 +47,7 @@ import (
 	"github.com/uber/kraken/utils/httputil"
 
 	"verif/bfs"
+	"verif/checks/c37/dsync"
 	"verif/evid"
 	_ "verif/quiet"
 	"verif/rep"
@@ -135,6 +148,9 @@ func pagedModes(ks ...int) []listMode {
 type built struct {
 	c       backend.Client
 	cleanup func()
+	// fake: the in-memory S3 that serves this client's Downloads (nil when
+	// Download is not served by one): transfer faults are injected there
+	fake *fakeS3
 }
 
 type backendSpec struct {
@@ -157,7 +173,16 @@ type backendSpec struct {
 	// what a listing with nothing to list answers, so an error is accepted
 	// there (and counted).
 	emptyListMayFail bool
-	build            func() (*built, error)
+	// faults: numbers of chunks after which an injected S3 transfer fault cuts
+	// a Download (configurations whose Download is served by the in-memory S3)
+	faults []int
+	// faultInKey: the history variable "a Download of this instance was cut by
+	// a fault" is part of the state key (thorough tier: doubles the states of
+	// the S3-served configurations); otherwise the state after a fault is merged
+	// with the one before it: the observation round right after the fault is
+	// what is checked
+	faultInKey bool
+	build      func() (*built, error)
 }
 
 func buildTestfs(root, np string) func() (*built, error) {
@@ -198,27 +223,21 @@ func buildSQL() (*built, error) {
 	return &built{c: c, cleanup: func() { c.Close() }}, nil
 }
 
-// viaNewClient: build S3 clients with s3backend.NewClient instead of the
-// export-file constructor (slow; main uses it for a cross-check replay).
-var viaNewClient bool
-
+// buildS3: every S3 client is built by the package's public constructor
+// (s3backend.NewClient + WithS3), so whatever NewClient initialises in a Client
+// is initialised here too. (An earlier version used an export-file copy of the
+// constructor to save the AWS session set-up; a field NewClient started to
+// initialise was then nil in the harness's clients. The set-up costs ~1 ms once
+// AWS_CA_BUNDLE is out of the environment, see main.)
 func buildS3(np string, listMaxKeys int, short bool) func() (*built, error) {
 	return func() (*built, error) {
 		fake := newFakeS3("bkt", short)
 		cfg := s3backend.Config{Username: "u", Region: "us-east-1", Bucket: "bkt", RootDirectory: "/root", NamePath: np, ListMaxKeys: listMaxKeys}
-		var c *s3backend.Client
-		var err error
-		if viaNewClient {
-			// the public constructor (AWS session etc.), used once per
-			// configuration to show both constructors give the same client
-			c, err = s3backend.NewClient(cfg, s3backend.UserAuthConfig{"u": s3backend.AuthConfig{}}, tally.NoopScope, s3backend.WithS3(fake))
-		} else {
-			c, err = s3backend.VerifNewClient(cfg, tally.NoopScope, fake)
-		}
+		c, err := s3backend.NewClient(cfg, s3backend.UserAuthConfig{"u": s3backend.AuthConfig{}}, tally.NoopScope, s3backend.WithS3(fake))
 		if err != nil {
 			return nil, err
 		}
-		return &built{c: c, cleanup: func() { c.Close() }}, nil
+		return &built{c: c, fake: fake, cleanup: func() { c.Close() }}, nil
 	}
 }
 
@@ -235,7 +254,8 @@ func buildShadow(active, shadow func() (*built, error)) func() (*built, error) {
 		}
 		c := shadowbackend.VerifNewClient(a.c, s.c)
 		// shadow Client.Close closes both; the cleanups release the servers.
-		return &built{c: c, cleanup: func() { a.cleanup(); s.cleanup() }}, nil
+		// shadow Download/Stat are served by the active client: its fake (if any)
+		return &built{c: c, fake: a.fake, cleanup: func() { a.cleanup(); s.cleanup() }}, nil
 	}
 }
 
@@ -244,13 +264,15 @@ func specs(thorough bool) []*backendSpec {
 	id, dt, sh := identityUniverse(n), dockerTagUniverse(n), shardedUniverse(n)
 	u := []listMode{unpaginated}
 	all := append([]listMode{unpaginated}, pagedModes(1, 2, 3)...)
+	// cheapest searches first (in-memory S3), loopback-HTTP testfs last: a
+	// deadline hit under load cuts the most expensive ones
 	s := []*backendSpec{
-		{label: "testfs identity", kind: "testfs", uni: id, tracksSize: true, modes: u, emptyListMayFail: true, build: buildTestfs("root", namepath.Identity)},
-		{label: "testfs docker_tag", kind: "testfs", uni: dt, tracksSize: true, modes: u, emptyListMayFail: true, build: buildTestfs("tags", namepath.DockerTag)},
-		{label: "sql", kind: "sql", uni: dt, tracksSize: false, modes: []listMode{unpaginated, pagedModes(1)[0]}, catalog: true, build: buildSQL},
 		{label: "s3 identity", kind: "s3", uni: identityUniverse(3), tracksSize: true, modes: all, build: buildS3(namepath.Identity, 0, false)},
 		{label: "s3 docker_tag short-pages list_max_keys=2", kind: "s3", uni: dockerTagUniverse(3), tracksSize: true, modes: all, build: buildS3(namepath.DockerTag, 2, true)},
 		{label: "shadow(s3 docker_tag, sql)", kind: "shadow", uni: dt, tracksSize: true, modes: all, build: buildShadow(buildS3(namepath.DockerTag, 0, false), buildSQL)},
+		{label: "testfs identity", kind: "testfs", uni: id, tracksSize: true, modes: u, emptyListMayFail: true, build: buildTestfs("root", namepath.Identity)},
+		{label: "testfs docker_tag", kind: "testfs", uni: dt, tracksSize: true, modes: u, emptyListMayFail: true, build: buildTestfs("tags", namepath.DockerTag)},
+		{label: "sql", kind: "sql", uni: dt, tracksSize: false, modes: []listMode{unpaginated, pagedModes(1)[0]}, catalog: true, build: buildSQL},
 	}
 	if thorough {
 		id4 := identityUniverse(4)
@@ -275,6 +297,15 @@ func specs(thorough bool) []*backendSpec {
 		if x.contents == nil {
 			x.contents = contents3
 		}
+		// transfer faults (used where the in-memory S3 serves Download): cut
+		// before the first chunk / after the first chunk; thorough: also after
+		// the second (chunks arrive first-then-reverse, so a 3-byte object cut
+		// after two chunks leaves a hole in the middle)
+		x.faults = []int{0, 1}
+		if thorough {
+			x.faults = []int{0, 1, 2}
+			x.faultInKey = true
+		}
 	}
 	return s
 }
@@ -288,7 +319,32 @@ var (
 	cEmptyListErr  int64 // accepted: error from a listing with nothing to list
 	cListings      int64
 	cMaxPagesInOne int64
+	cPlainDl       int64 // successful Downloads into a non-WriterAt destination
+	cFaults        int64 // injected transfer faults delivered to a Download
+	cFaultErr      int64 // ... that the client reported as an error
+	cPanics        int64
+
+	// per configuration: Downloads into a non-WriterAt destination of an object
+	// SHORTER than one the same client instance had transferred that way before
+	longThenShortMu sync.Mutex
+	longThenShort   = map[string]int64{}
 )
+
+// guard runs one call of the client API; a panic of the client is a contract
+// violation of that call (it returns neither the bytes nor an error), never a
+// crash of the check.
+func (s *sys) guard(method string, call func() error) (err error) {
+	defer func() {
+		if r := recover(); r != nil {
+			atomic.AddInt64(&cPanics, 1)
+			err = bfs.Failf(s.fp(method+" panics"), "%v", r)
+		}
+	}()
+	return call()
+}
+
+// isFail: err is a violation raised by guard (as opposed to the client's error).
+func isFail(err error) bool { _, ok := err.(*bfs.Fail); return ok }
 
 // ------------------------------------------------------------ system
 
@@ -297,7 +353,17 @@ type sys struct {
 	b      *built
 	model  map[string]string
 	rewrit map[string]bool // name was uploaded more than once
-	obs    string
+	// hw: history variable, part of the state key: length of the longest object
+	// this client instance has transferred (completely or cut by a fault) into
+	// a non-WriterAt destination. The model state alone forgets it (the long
+	// object may have been overwritten since); a client that keeps anything
+	// between calls does not.
+	hw int
+	// faulted: second history variable of the key: a Download of this instance
+	// was cut by an injected transfer fault (what the client keeps from a
+	// failed call may outlive the observations that follow it)
+	faulted bool
+	obs     string
 	// initFail: the freshly built (empty) store already violates the contract
 	initFail *bfs.Fail
 }
@@ -332,6 +398,19 @@ func (s *sys) Ops() []string {
 	for i := range s.spec.uni.names {
 		ops = append(ops, fmt.Sprintf("dl %d", i), fmt.Sprintf("st %d", i))
 	}
+	if s.b.fake != nil {
+		// transfer faults: only on stored names (a missing key fails before any
+		// transfer) and only cuts that exist for the stored length
+		for i, nm := range s.spec.uni.names {
+			if c, ok := s.model[nm]; ok {
+				for _, j := range s.spec.faults {
+					if j <= len(c) {
+						ops = append(ops, fmt.Sprintf("dlf %d %d", i, j))
+					}
+				}
+			}
+		}
+	}
 	for p := range s.spec.uni.prefixes {
 		for m := range s.spec.modes {
 			ops = append(ops, fmt.Sprintf("ls %d %d", p, m))
@@ -352,7 +431,10 @@ func (s *sys) Apply(op string) error {
 	case "up":
 		name, content := s.spec.uni.names[arg(1)], s.spec.contents[arg(2)]
 		// bytes.Reader: shadowbackend requires an io.ReadSeeker
-		if err := s.b.c.Upload(ns, name, bytes.NewReader([]byte(content))); err != nil {
+		if err := s.guard("Upload", func() error { return s.b.c.Upload(ns, name, bytes.NewReader([]byte(content))) }); err != nil {
+			if isFail(err) {
+				return err
+			}
 			return fmt.Errorf("Upload(%q,%q): %v", name, content, err)
 		}
 		if old, ok := s.model[name]; ok {
@@ -364,6 +446,10 @@ func (s *sys) Apply(op string) error {
 		s.model[name] = content
 	case "dl":
 		if _, err := s.download(s.spec.uni.names[arg(1)], false); err != nil {
+			return err
+		}
+	case "dlf":
+		if err := s.faultedDownload(s.spec.uni.names[arg(1)], arg(2)); err != nil {
 			return err
 		}
 	case "st":
@@ -401,6 +487,9 @@ func (s *sys) kindOfUpload(name string) string {
 	if s.model[name] == "" {
 		q += ", empty content"
 	}
+	if s.faulted {
+		q += ", after a Download of this instance was cut by a transfer fault"
+	}
 	return q
 }
 
@@ -414,8 +503,17 @@ func (s *sys) download(name string, writerAt bool) (string, error) {
 		w := &bytes.Buffer{}
 		dst, get = w, w.Bytes
 	}
-	err := s.b.c.Download(ns, name, dst)
+	err := s.guard("Download", func() error { return s.b.c.Download(ns, name, dst) })
+	if isFail(err) {
+		return "", err
+	}
 	want, stored := s.model[name]
+	if stored && !writerAt {
+		s.notePlainTransfer(len(want))
+		if err == nil {
+			atomic.AddInt64(&cPlainDl, 1)
+		}
+	}
 	if !stored {
 		switch {
 		case err == nil:
@@ -440,8 +538,72 @@ func (s *sys) download(name string, writerAt bool) (string, error) {
 	return "=" + want, nil
 }
 
+// notePlainTransfer maintains hw and counts longer-then-shorter pairs.
+func (s *sys) notePlainTransfer(n int) {
+	if n < s.hw {
+		longThenShortMu.Lock()
+		longThenShort[s.spec.label]++
+		longThenShortMu.Unlock()
+	}
+	if n > s.hw {
+		s.hw = n
+	}
+}
+
+// faultedDownload: Download(name) into a non-WriterAt destination while the S3
+// transfer is cut after `chunks` chunks. The statement's clause for this call:
+// if the client reports success the destination holds exactly the bytes last
+// uploaded (a client that retries may succeed); an error is the expected
+// answer, but it must not be the not-found error for a stored name. What the
+// client keeps from the failed call is judged by the observations that follow.
+func (s *sys) faultedDownload(name string, chunks int) error {
+	want, stored := s.model[name]
+	if !stored || s.b.fake == nil {
+		return fmt.Errorf("dlf on %q: not applicable in this state", name)
+	}
+	before := s.b.fake.disarm()
+	s.b.fake.failNextDownload(chunks)
+	dst := &bytes.Buffer{}
+	err := s.guard("Download", func() error { return s.b.c.Download(ns, name, dst) })
+	delivered := s.b.fake.disarm() - before
+	if isFail(err) {
+		return err
+	}
+	s.notePlainTransfer(len(want))
+	if delivered == 0 {
+		// the client answered without a transfer from S3 (nothing was cut):
+		// the plain Download clause applies
+		if err != nil {
+			return fmt.Errorf("Download(%q): %v", name, err)
+		}
+		if got := dst.String(); got != want {
+			return bfs.Failf(s.fp("Download differs from the bytes last uploaded ("+s.kindOfUpload(name)+")"), "Download(%q) = %q, last uploaded %q", name, got, want)
+		}
+		return nil
+	}
+	atomic.AddInt64(&cFaults, 1)
+	s.faulted = true
+	switch {
+	case err == nil:
+		if got := dst.String(); got != want {
+			return bfs.Failf(s.fp("Download reports success with bytes that differ from the bytes last uploaded (S3 transfer cut by a fault)"),
+				"Download(%q) with the transfer cut after %d chunks = nil, %q; last uploaded %q", name, chunks, got, want)
+		}
+	case errors.Is(err, backenderrors.ErrBlobNotFound):
+		return bfs.Failf(s.fp("Download of an uploaded name answers ErrBlobNotFound (S3 transfer cut by a fault)"),
+			"Download(%q) with the transfer cut after %d chunks, last uploaded %q", name, chunks, want)
+	default:
+		atomic.AddInt64(&cFaultErr, 1)
+	}
+	return nil
+}
+
 func (s *sys) stat(name string) (string, error) {
-	info, err := s.b.c.Stat(ns, name)
+	var info *core.BlobInfo
+	err := s.guard("Stat", func() (e error) { info, e = s.b.c.Stat(ns, name); return })
+	if isFail(err) {
+		return "", err
+	}
 	want, stored := s.model[name]
 	if !stored {
 		switch {
@@ -512,8 +674,12 @@ func (s *sys) list(p prefixSpec, m listMode) (string, error) {
 			}
 			opts = append(opts, backend.ListWithContinuationToken(token))
 		}
-		res, err := s.b.c.List(p.prefix, opts...)
+		var res *backend.ListResult
+		err := s.guard("List", func() (e error) { res, e = s.b.c.List(p.prefix, opts...); return })
 		calls++
+		if isFail(err) {
+			return "", err
+		}
 		if err != nil {
 			if len(want) == 0 && s.spec.emptyListMayFail && calls == 1 {
 				atomic.AddInt64(&cEmptyListErr, 1)
@@ -597,7 +763,13 @@ func (s *sys) observe() error {
 	return nil
 }
 
-func (s *sys) Key() string { return bfs.SortedKey(s.model) + "|" + s.obs }
+func (s *sys) Key() string {
+	k := bfs.SortedKey(s.model) + "|hw=" + strconv.Itoa(s.hw)
+	if s.spec.faultInKey {
+		k += "|faulted=" + strconv.FormatBool(s.faulted)
+	}
+	return k + "|" + s.obs
+}
 
 // ------------------------------------------------------------ main
 
@@ -645,10 +817,15 @@ func replay(run *evid.Run, path string) {
 }
 
 func main() {
+	// AWS_CA_BUNDLE makes every session.NewSession (inside s3backend.NewClient)
+	// parse the whole system CA bundle (~20 ms); no connection is ever made
+	os.Unsetenv("AWS_CA_BUNDLE")
 	run := evid.New("C37", "model_checking")
-	run.Rule = "per backend configuration: BFS to fixpoint over all histories of Upload(name, content) / Download(name) / Stat(name) / List(prefix, mode) on the real client (3 names per pather, 4 in some thorough S3 configurations; contents {\"\", \"x\", \"yy\"} plus a binary one in thorough; prefixes {\"\", common directory, single-name directory}, modes unpaginated and paginated with MaxKeys 1..3 (1..4 with 4 names), tokens followed to the end); state = map name->content plus every API observation; after every operation all observations are compared with the model. distinct = distinct reachable states per configuration."
-	run.Assume("small-scope: 3-4 names per pather, contents of length 0..3, page sizes 1..4, S3 list_max_keys in {1,2,3,default 250}")
-	run.Assume("trusted base: the in-memory S3 (checks/c37/fake_s3.go: sorted keys, string prefix, MaxKeys, continuation tokens, short pages, leading '/' of a key dropped, chunked out-of-order WriteAt) stands in for S3 + aws-sdk-go; testfs runs over loopback HTTP (httptest), sql on in-memory sqlite")
+	run.Rule = "per backend configuration: BFS to fixpoint over all histories of Upload(name, content) / Download(name) / Stat(name) / List(prefix, mode) on ONE long-lived real client built by its real constructor (3 names per pather, 4 in some thorough S3 configurations; contents {\"\", \"x\", \"yy\"} plus a 3-byte binary one in thorough; prefixes {\"\", common directory, single-name directory}, modes unpaginated and paginated with MaxKeys 1..3 (1..4 with 4 names), tokens followed to the end) plus, where the in-memory S3 serves Download, DownloadWithFault(name, j): a Download into a non-WriterAt destination whose S3 transfer is cut after j chunks (j in {0,1}, thorough {0,1,2}, j <= stored length); state = map name->content, the history variables hw = longest object this instance has transferred into a non-WriterAt destination (thorough: and faulted = one of its Downloads was cut by a fault), and every API observation; after every operation all observations (Download of every name into a bytes.Buffer and into a WriterAt, Stat, every listing) are compared with the model, so every instance performs many Downloads of objects of different lengths (longer then shorter, failed then successful) through the same client. distinct = distinct reachable states per configuration."
+	run.Assume("small-scope: 3-4 names per pather, contents of length 0..3, page sizes 1..4, S3 list_max_keys in {1,2,3,default 250}, at most one transfer fault per Download (cut before chunk 1, after chunk 1, thorough: after chunk 2)")
+	run.Assume("trusted base: the in-memory S3 (checks/c37/fake_s3.go: sorted keys, string prefix, MaxKeys, continuation tokens, short pages, leading '/' of a key dropped, chunked out-of-order WriteAt, one-shot transfer fault answered with the SDK's generic RequestError) stands in for S3 + aws-sdk-go; s3backend clients are built by s3backend.NewClient + WithS3; testfs runs over loopback HTTP (httptest), sql on in-memory sqlite")
+	run.Assume("sync.Pool in the backend packages (lib/backend, namepath, s3backend, sqlbackend, testfs, shadowbackend, utils/rwutil, utils/httputil) is replaced through the overlay by checks/c37/dsync.Pool: Get answers the most recently Put item whenever one exists, New() otherwise, nothing is dropped (the legal runtime answer that maximises reuse; the fresh-item answer is what every first Get of an instance receives); files ADDED by a patch are not rewritten")
+	run.Assume("a Download that was cut by an injected fault may answer an error (no claim on the destination then) or succeed with exactly the uploaded bytes; it must not answer ErrBlobNotFound for a stored name; a panic of a client call is a violation of that call's clause")
 	run.Assume("prefixes are whole path components and never equal to a name (where directory-style and string-prefix listing could disagree the statement does not decide)")
 	run.Assume("sqlbackend List(\"\") is documented to answer <repo>:dummy per repository; oracle there: every repository with a stored name exactly once. sqlbackend does not track sizes (Stat size not compared)")
 	run.Assume("a listing with nothing to list may fail on testfs (directory does not exist yet); not decided by the statement, counted in empty_list_errors")
@@ -657,10 +834,13 @@ func main() {
 		replay(run, rp)
 		return
 	}
-	deadline := time.Now().Add(45 * time.Second)
+	// cap, not a target: ~10 s of work on 16 idle cores; the cap only cuts a
+	// run on a heavily overloaded machine
+	deadline := time.Now().Add(170 * time.Second)
 	if run.Thorough() {
 		deadline = time.Now().Add(12 * time.Minute)
 	}
+	completed := map[string]bool{}
 	for _, spec := range specs(run.Thorough()) {
 		spec := spec
 		t0 := time.Now()
@@ -676,31 +856,9 @@ func main() {
 			run.Violation(f0.Fingerprint, map[string]interface{}{"search": spec.label, "history": []string{}, "msg": f0.Msg})
 			continue
 		}
-		// the export-file S3 constructor and s3backend.NewClient must give
-		// clients that behave the same on a fixed history
-		var keys [2]string
-		for i, via := range []bool{false, true} {
-			viaNewClient = via
-			sy, err := newSys(spec)
-			if err != nil {
-				run.Fatal(err)
-			}
-			for _, op := range []string{"up 0 1", "up 1 2", "up 2 1", "up 0 2", "up 1 1"} {
-				if err := sy.Apply(op); err != nil {
-					if _, isFail := err.(*bfs.Fail); !isFail {
-						run.Fatal(err)
-					}
-				}
-			}
-			keys[i] = sy.Key()
-			sy.Close()
-		}
-		viaNewClient = false
-		if keys[0] != keys[1] {
-			run.Fatal(fmt.Errorf("%s: constructors disagree: %q vs %q", spec.label, keys[0], keys[1]))
-		}
 		res := rep.BFS(run, spec.label, bfs.Config{MaxDepth: 12, Deadline: deadline, New: func() (bfs.System, error) { return newSys(spec) }})
 		run.Set("wall_s:"+spec.label, float64(int(time.Since(t0).Seconds()*10))/10)
+		completed[spec.label] = res.Completed
 		if res.Completed && !res.Fixpoint {
 			run.NotExhaustive(spec.label + ": no fixpoint within depth 12")
 		}
@@ -714,6 +872,24 @@ func main() {
 	run.Set("max_client_calls_in_one_listing", atomic.LoadInt64(&cMaxPagesInOne))
 	run.Set("not_found_answers_checked", atomic.LoadInt64(&cNotFound))
 	run.Set("empty_list_errors", atomic.LoadInt64(&cEmptyListErr))
+	run.Set("plain_destination_downloads", atomic.LoadInt64(&cPlainDl))
+	run.Set("transfer_faults_delivered", atomic.LoadInt64(&cFaults))
+	run.Set("transfer_faults_reported_as_error", atomic.LoadInt64(&cFaultErr))
+	run.Set("client_panics", atomic.LoadInt64(&cPanics))
+	run.Set("pool_gets_answered_with_recycled_item", dsync.RecycledCount())
+	var ltsTotal int64
+	for _, spec := range specs(run.Thorough()) {
+		n := longThenShort[spec.label]
+		ltsTotal += n
+		run.Set("longer_then_shorter_plain_downloads:"+spec.label, n)
+		if n == 0 && completed[spec.label] && run.NViolations() == 0 {
+			run.Fatal(fmt.Errorf("vacuous: %s: no Download into a non-WriterAt destination of an object shorter than an earlier one on the same client instance", spec.label))
+		}
+	}
+	run.Set("longer_then_shorter_plain_downloads", ltsTotal)
+	if atomic.LoadInt64(&cFaults) == 0 && completed["s3 identity"] && run.NViolations() == 0 {
+		run.Fatal(errors.New("vacuous: no transfer fault was delivered"))
+	}
 	if atomic.LoadInt64(&cOverwrites) == 0 || atomic.LoadInt64(&cMultiPage) == 0 || atomic.LoadInt64(&cNotFound) == 0 {
 		if run.NViolations() == 0 {
 			run.Fatal(errors.New("vacuous: no overwrite / multi-page listing / not-found answer was exercised"))
